@@ -9,6 +9,11 @@ def okBase (F : Facts) : Bool :=
   F.msrScale == 1073741824 && F.smallNum == 53687091200 && F.smallDen == 274877906944 &&
   F.largeThreshold == 53687091200 && F.freeOp == .lt && F.refuseInBranch
 
+/-- the call sites: the configured setting and statfs' numbers reach `checkThreshold`, the watcher
+pauses on refusal and resumes on acceptance -/
+def okWatch (F : Facts) : Bool :=
+  F.usageUsesConfigMsr && F.usageTotalBlocks && F.usageFreeBavail && F.watchPausesOnErr && F.watchResumesOnOk
+
 /-- … and the conversion that makes the comparison exact. -/
 def ok (F : Facts) : Bool := okBase F && F.conv == .ceil
 
@@ -135,5 +140,31 @@ theorem refuse_mono (F : Facts) (h : okMono F = true) (total free free' : Nat) (
     refine ⟨hr.1, ?_⟩
     simp only [okMono, Bool.or_eq_true, beq_iff_eq] at h
     rcases h with h | h <;> simp only [h, Cmp.eval, decide_eq_true_eq] at hr ⊢ <;> omega
+
+end Zeno.Model.Disk
+
+namespace Zeno.Model.Disk
+
+/-- After every tick the pipeline is paused exactly when the guard refuses. -/
+theorem tick_tracks (F : Facts) (h : okWatch F = true) (paused low : Bool) : tick F paused low = low := by
+  simp only [okWatch, Bool.and_eq_true] at h
+  obtain ⟨⟨⟨⟨h1, _⟩, _⟩, h4⟩, h5⟩ := h
+  cases paused <;> cases low <;> simp [tick, h1, h4, h5]
+
+theorem watch_tracks (F : Facts) (h : okWatch F = true) (lows : List Bool) : watch F lows = lows := by
+  unfold watch
+  have hf : (fun (acc : Bool × List Bool) low => let p := tick F acc.1 low; (p, acc.2 ++ [p]))
+      = (fun (acc : Bool × List Bool) low => (low, acc.2 ++ [low])) := by
+    funext acc low; simp [tick_tracks F h]
+  rw [hf]
+  suffices ∀ (acc : List Bool) (p : Bool),
+      (lows.foldl (fun (acc : Bool × List Bool) low => (low, acc.2 ++ [low])) (p, acc)).2 = acc ++ lows by
+    simpa using this [] false
+  induction lows with
+  | nil => intro acc p; simp
+  | cons l ls ih =>
+    intro acc p
+    simp only [List.foldl_cons]
+    rw [ih]; simp
 
 end Zeno.Model.Disk
